@@ -50,6 +50,7 @@ class Stats(object):
         self.nontrivial = set()
         self.classes = {}
         self.samples = []
+        self._sizes = []
         self.max_samples = 4
 
     def count(self, k, n=1):
@@ -65,8 +66,17 @@ class Stats(object):
             h = case_repr if isinstance(case_repr, str) else jhash(case_repr)
             if h not in self.nontrivial:
                 self.nontrivial.add(h)
+                smp = sample if sample is not None else case_repr
+                # keep the shortest non-trivial cases as samples (readable, not truncated)
+                size = len(json.dumps(smp, default=repr))
                 if len(self.samples) < self.max_samples:
-                    self.samples.append(sample if sample is not None else case_repr)
+                    self.samples.append(smp)
+                    self._sizes.append(size)
+                else:
+                    big = max(range(len(self._sizes)), key=lambda i: self._sizes[i])
+                    if size < self._sizes[big]:
+                        self.samples[big] = smp
+                        self._sizes[big] = size
 
     def to_dict(self):
         return dict(evaluations=self.evaluations, nontrivial=sorted(self.nontrivial),
@@ -78,11 +88,20 @@ class Stats(object):
         for k, v in d["classes"].items():
             self.classes[k] = self.classes.get(k, 0) + v
         for s in d["samples"]:
+            size = len(json.dumps(s, default=repr))
             if len(self.samples) < self.max_samples:
                 self.samples.append(s)
+                self._sizes.append(size)
+            else:
+                while len(self._sizes) < len(self.samples):
+                    self._sizes.append(len(json.dumps(self.samples[len(self._sizes)], default=repr)))
+                big = max(range(len(self._sizes)), key=lambda i: self._sizes[i])
+                if size < self._sizes[big]:
+                    self.samples[big] = s
+                    self._sizes[big] = size
 
 
-def truncate_sample(obj, limit=1600):
+def truncate_sample(obj, limit=4000):
     s = json.dumps(obj, default=repr, ensure_ascii=False)
     if len(s) <= limit:
         return obj
